@@ -556,4 +556,60 @@ example : tombAfterSrc [(exK, 5)] exK 4 = [(exK, 5)] := by decide
 
 end source
 
+/-! ### 6. activity is monotone under touch (the judge's `viol:touch-activity-regressed`) -/
+
+theorem normalize_seen_of_ne {r : Route} (h : r.seen ≠ 0) : (normalize r).seen = r.seen := by
+  unfold normalize; simp [h]
+
+theorem normalize_seen_of_zero {r : Route} (h : r.seen = 0) : (normalize r).seen = r.conn := by
+  unfold normalize; simp [h]
+
+/-- **A touch never lowers the recorded activity second** of a route that stays active (for
+    non-negative connect times): TTL idleness is measured from the latest observed activity. -/
+theorem c33_touch_activity_monotone (s : Slot) (h : SlotIdx s) (r e : Route)
+    (he : findA r.key s.active = some e) (hconn : 0 ≤ r.conn) :
+    ∀ r' ∈ (s.touch r).active, r'.key = r.key → e.seen ≤ r'.seen := by
+  obtain ⟨hem, hek⟩ := findA_some he
+  have same : ∀ r' ∈ s.active, r'.key = r.key → e.seen ≤ r'.seen := by
+    intro r' hr' hk
+    have : r' = e := nodup_key_unique h.nodup hr' hem (hk.trans hek.symm)
+    subst this; exact Int.le_refl _
+  intro r' hr' hk
+  unfold Slot.touch at hr'
+  split at hr'
+  · exact same r' hr' hk
+  · simp only at hr'
+    split at hr'
+    · exact same r' hr' hk
+    · simp only [normalize_key, he] at hr'
+      have hxk : (if (normalize r).seen < e.seen then (normalize r).withSeen e.seen else normalize r).key = r.key := by
+        split <;> simp
+      have hxs : e.seen ≤ (normalize (if (normalize r).seen < e.seen then (normalize r).withSeen e.seen else normalize r)).seen := by
+        split
+        · by_cases h0 : e.seen = 0
+          · rw [normalize_seen_of_zero (by simp [Route.withSeen, h0])]
+            have : ((normalize r).withSeen e.seen).conn = r.conn := by
+              simp only [Route.withSeen]; unfold normalize; split <;> rfl
+            rw [this, h0]; exact hconn
+          · rw [normalize_seen_of_ne (by simpa [Route.withSeen] using h0)]
+            simp [Route.withSeen]
+        · rename_i hge
+          have hge' : e.seen ≤ (normalize r).seen := by omega
+          by_cases h0 : (normalize r).seen = 0
+          · rw [normalize_seen_of_zero h0]
+            have : (normalize r).conn = r.conn := by unfold normalize; split <;> rfl
+            rw [this]; omega
+          · rw [normalize_seen_of_ne h0]; exact hge'
+      generalize (if (normalize r).seen < e.seen then (normalize r).withSeen e.seen else normalize r) = x at hr' hxk hxs
+      rw [upsert_active] at hr'
+      rcases List.mem_append.mp hr' with hr' | hr'
+      · have := (mem_delA.mp hr').2
+        rw [normalize_key, hxk] at this
+        exact absurd hk this
+      · simp at hr'; subst hr'; exact hxs
+
+/-- non-vacuity: a touch carrying an older activity second (100) keeps the stored one (120) -/
+example : ((run {} [.become exT, .reg exT ⟨[117], 1, 1, 1, 1, [100], 0, 0, [], 90, 120⟩,
+      .touch exT [⟨[117], 1, 1, 1, 1, [100], 0, 0, [], 90, 100⟩]]).slots.map (fun p => p.2.active.map (·.seen))) = [[120]] := by decide
+
 end WK.C33
